@@ -146,7 +146,8 @@ def build_coq(clean=False, theory=None):
     if not os.path.exists(mk) or os.path.getmtime(mk) < os.path.getmtime(cp):
         run(["coq_makefile", "-f", "_CoqProject", "-o", "Makefile"], cwd=COQ, check=True)
     t0 = time.time()
-    targets = [theory[:-2] + ".vo", "Extract/Extract.vo"] if theory else []
+    # Interp/SexpEq.vo: needed by the in-Coq re-evaluation of sampled cases (coq_sample), imported by nothing else
+    targets = [theory[:-2] + ".vo", "Extract/Extract.vo", "Interp/SexpEq.vo"] if theory else []
     p = run(["make", "-j16"] + targets, cwd=COQ, timeout=3000)
     os.makedirs(os.path.join(BUILD, "logs"), exist_ok=True)
     with open(os.path.join(BUILD, "logs", "coq_make.log"), "a") as f:
